@@ -1098,6 +1098,10 @@ impl<'a> Walk<'a> {
                 if slots.is_empty() {
                     self.errors.push("swizzle without components".into());
                 }
+                // ... and at most four: there is no vector type with more components
+                if slots.len() > 4 {
+                    self.errors.push(format!("swizzle with {} components", slots.len()));
+                }
                 if let Some(t) = self.ty(x) {
                     let width = match m.type_registry.get_type_layer(m.type_registry.remove_modifier(t.0)) {
                         ir::TypeLayer::Scalar(_) => Some(1),
